@@ -228,6 +228,7 @@ class ConnWorld(World):
         self.login = login
         self.device_name = device_name
         self.stops: list[tuple[float, bool, str]] = []
+        self.stop_hooks: list[Callable[[bool], None]] = []
         self.psk = psk if psk is not None else seed_bytes("psk")
         self.ndev: noise_ref.NoiseDevice | None = None
         if noise:
@@ -267,6 +268,8 @@ class ConnWorld(World):
         st = self.conn.connection_state.name if self.conn is not None else "?"
         self.stops.append((self.loop.time(), bool(expected), st))
         self.note("on_stop", bool(expected))
+        for h in self.stop_hooks:
+            h(bool(expected))
 
     # --- what the client wrote ---------------------------------------------------------------
     def sent_frames(self, s: FakeSocket | None = None) -> list[tuple[int, bytes]]:
